@@ -42,8 +42,8 @@ PLANS = {
                "minor": {(0, 0): 2, (0, 1): 2}},
     "1each": {"cn": [["1", "1"]], "major": {0: [{"1": 2}]}, "minor": {(0, 0): 1}},
     "3cn": {"cn": [["1", "1"], ["1", "1", "1"], ["1", "4"]],
-            "major": {0: [{"1": 2}, {"2": 2}], 1: [{"1": 3}], 2: [{"1": 1, "4#1": 1}]},
-            "minor": {(0, 0): 1, (0, 1): 1, (1, 0): 1, (2, 0): 1}},
+            "major": {0: [{"1": 2}], 1: [{"1": 3}], 2: [{"1": 1, "4#1": 1}]},
+            "minor": {(0, 0): 1, (1, 0): 1, (2, 0): 1}},
     "nocn": {"cn": [], "major": {}, "minor": {}},
     "nomajor": {"cn": [["1", "1"]], "major": {0: []}, "minor": {}},
     "nominor": {"cn": [["1", "1"]], "major": {0: [{"1": 2}]}, "minor": {(0, 0): 0}},
@@ -57,13 +57,14 @@ def BOUNDS(tier):
                                          [p for p in PLANS if p != "3cn"])),
             "major and minor scores symbolic reals in [0,50]; structure scores from "
             "{(0.5,1.25,0.75), (1.5,0.25,3.0), (0.4,0.4,0.4)}; gap in {0, 0.1, 0.3}"
-            + (" and symbolic in [0,0.5]" if tier == "thorough" else ""),
+            + (", 0.05, 0.5, 1.0 (a symbolic gap multiplies symbolic scores: non-linear, "
+               "z3 did not finish in 40 min)" if tier == "thorough" else ""),
             "output modes: none, simple"]
 
 
 def configs(tier):
     c = []
-    gaps = ["0", "0.1", "0.3"] + (["sym"] if tier == "thorough" else [])
+    gaps = ["0", "0.1", "0.3"] + (["0.05", "0.5", "1.0"] if tier == "thorough" else [])
     for p in PLANS:
         if p == "3cn" and tier != "thorough":
             continue
@@ -136,7 +137,11 @@ def run_config(cfg):
             keptM = {k: Bp[k] - minb - gz < prec for k in Bp}
             for k in C:
                 cp = C[k] + (Bp[k[:2]] - minb)
-                spec[k] = (cp * (A[k[0]] + 1) / (mina + 1), keptM[k[:2]])
+                # the rescaling factor is a quotient of concrete floats: the same float the
+                # code computes (7/6 is not a float; an exact 7/6 here was a false alarm)
+                fmin = min(float(x) for x in cfg["cnscores"][:len(plan["cn"])])
+                fac = symx.q((float(cfg["cnscores"][k[0]]) + 1) / (fmin + 1))
+                spec[k] = (cp * fac, keptM[k[:2]])
     big = z3.RealVal(10 ** 6)
     minf = zmin([z3.If(km, f, big) for f, km in spec.values()]) if spec else None
     npaths = 0
@@ -284,7 +289,8 @@ def replay(o):
     best = min(F.values())
     want = {k for k, v in F.items() if v - best - gap < SOLUTION_PRECISION}
     # borderline values are not decidable in floating point: skip them
-    if any(abs(v - best - gap - SOLUTION_PRECISION) < 1e-9 for v in F.values()):
+    if any(abs(v - best - gap - SOLUTION_PRECISION) < 1e-9 for v in F.values()) or \
+            any(abs(v - minb - gap - SOLUTION_PRECISION) < 1e-9 for v in Bp.values()):
         return False, "borderline"
     got = []
     for n in sols:
